@@ -9,7 +9,22 @@ RANGE_NOTE = ("Trusted: Lean kernel; the hand-written model of plugins/range (pl
               "on generated request/restart histories against the real plugin and a real sqlite file; sqlite, net.ParseIP and the clock are parameters; "
               "the stored hardware-address round trip is an explicit hypothesis of the theorems, exercised by every restart in the run.")
 
+DISP_NOTE = ("Trusted: Lean kernel; the hand-written model of server/handle.go (and plugins/plugin.go), tied to the code by differential conformance through the server "
+             "capture hook on generated and mutated datagrams; the DHCP codec and reply constructors of insomniacslk/dhcp are mirrored, not verified; sockets and the link-level send are not modelled.")
+
 META = {
+    "C11": dict(
+        text="Lean theorem over the dispatch model for every parse result, listener configuration and chain of field-preserving handlers: whatever is sent answers a BOOTREQUEST DISCOVER/REQUEST, is a BOOTREPLY echoing xid/htype/chaddr/flags/giaddr/options 82 and 61, OFFER for DISCOVER and ACK/NAK for REQUEST; nothing else is ever answered (for arbitrary handlers).",
+        design_ref="DESIGN.md §4 C11", technique="Lean 4 theorem (decision logic + fold invariant over any handler chain) + conformance through the server capture hook", note=DISP_NOTE),
+    "C12": dict(
+        text="Lean theorem for all 256 message types, client-id/rapid-commit presence, any relay nesting depth (induction-free: list map), any source and binding: reply type table, echo of transaction id and client id, n mirrored Relay-Reply layers, pinning iff link-local source.",
+        design_ref="DESIGN.md §4 C12", technique="Lean 4 theorem (decision table + relay mirroring for every depth) + conformance through the server capture hook", note=DISP_NOTE),
+    "C13": dict(
+        text="Lean theorems for handlers that are arbitrary functions: the invocation log is positions 0..k-1 in order, each given its predecessor's response, k ends at the first stop, the response returned last is what is sent and nil sends nothing; LoadPlugins yields exactly the supported listed plugins in order or an error. The same predicate judges the logged invocations of scripted handlers run by the real server loop.",
+        design_ref="DESIGN.md §4 C13", technique="Lean 4 theorem (fold semantics for arbitrary handler functions, loader characterisation) + conformance with scripted handlers and synthetic registered plugins + go/ast facts F3, F7", note=DISP_NOTE),
+    "C15": dict(
+        text="Lean theorem for arbitrary handlers: destination, port, link-level flag and interface pinning of every reply equal the RFC 2131 §4.1 table as the property states it, for all giaddr/ciaddr/flag/reply-type/yiaddr/binding combinations; no missing interface within the property's configuration space.",
+        design_ref="DESIGN.md §4 C15", technique="Lean 4 theorem (decision table, all inputs) + conformance through the server capture hook + go/ast facts F5, F6", note=DISP_NOTE),
     "C02": dict(
         text="Lean invariant proof by induction over every history of requests and restarts (any hardware-address lengths, any times, any allocator policy, any re-marking order): the history monitor 'in range, configured lease time, sticky per client, injective, unanswered only when exhausted' never fails on the model; the same monitor judges the implementation's trace while the model is stepped alongside.",
         design_ref="DESIGN.md §4 C02", technique="Lean 4 invariant proof over all request/restart histories + conformance against the real range plugin on a real sqlite file", note=RANGE_NOTE),
@@ -35,4 +50,4 @@ META = {
 }
 NOT_YET = {}
 # properties whose check is complete and registered
-ENABLED = {"C20", "C02", "C03", "C04", "C05", "C06", "C07"}
+ENABLED = {"C20", "C02", "C03", "C04", "C05", "C06", "C07", "C11", "C12", "C13", "C15"}
